@@ -153,6 +153,10 @@ Recovery(r) ==
        ELSE IF ~serial /\ n > 0 /\ r.params.expect_failed = 0 /\ r.present_at_end = 1 /\ S[n] # "connected"
             THEN Fail("not-reported-connected-after-device-returned", n)
        ELSE IF ~serial /\ \E k \in 1..(n - 1) : S[k] = "connected" /\ S[k + 1] = "connected" THEN Fail("connected-reported-twice", 0)
+       \* the handshake is repeated on the connection that is open at the end: version asked, then serial, and the
+       \* driver holds what this connection answered (not leftovers of an earlier, interrupted handshake)
+       ELSE IF r.hs.applies = 1 /\ r.hs.inits # <<0, 2>> THEN Fail("handshake-not-repeated-after-reconnection", Len(r.hs.inits))
+       ELSE IF r.hs.applies = 1 /\ (r.hs.fw # r.hs.want_fw \/ r.hs.serial # r.hs.want_serial) THEN Fail("handshake-result-stale-or-wrong", 0)
        ELSE Pass
 
 Verdict(r) == CASE Mode = "c15" -> TxnAtomic(r) [] Mode = "c16" -> AnswerPairing(r) [] Mode = "c17" -> Recovery(r)
